@@ -55,7 +55,10 @@ pub struct Exec {
     /// real snapshots taken by `snap`, with the ranges they described when taken
     pub snaps: HashMap<u64, (Box<dyn AnySnap>, Vec<OwnedRange>)>,
     /// C03-C07 hypothesis check: page digest -> canonical description of the page pre-image
-    pub preimages: HashMap<[u8; 16], String>,
+    /// (configuration, page digest) -> structured pre-image. Per CONFIGURATION: C03 compares trees with
+    /// the same hasher, base and digest width only; across widths `key‖value` is legitimately ambiguous
+    /// (key 000000a0 + 2-byte value a001 and key 000000 + 3-byte value a0a001 are the same byte stream)
+    pub preimages: HashMap<(String, [u8; 16]), String>,
     pub reps: HashMap<u64, Rep>,
     pub trees: HashMap<u64, Slot>,
     pub lists: HashMap<u64, Vec<OwnedRange>>,
@@ -338,14 +341,15 @@ impl Exec {
                 }
             }
             // NB: a high page's digest is appended after its parent closed; order pages by closing
+            let cfg = t.cfg_id();
             for (d, pre) in finished {
-                match self.preimages.get(&d) {
+                match self.preimages.get(&(cfg.clone(), d)) {
                     Some(old) if *old != pre => {
-                        self.fail("C03", format!("two different page pre-images share digest {}", hex(&d)));
+                        self.fail("C03", format!("two different page pre-images share digest {}: {} vs {}", hex(&d), &old[..old.len().min(400)], &pre[..pre.len().min(400)]));
                     }
                     Some(_) => {}
                     None => {
-                        self.preimages.insert(d, pre);
+                        self.preimages.insert((cfg.clone(), d), pre);
                     }
                 }
             }
@@ -977,7 +981,7 @@ impl Exec {
                 };
                 let (res, depth) = crate::depth::measure(|| diff_owned(&la, &lb));
                 match (res, depth) {
-                    (Some(_), Some(d)) => Ok(d.to_string()),
+                    (Some(_), Some(d)) => Ok(format!("depth={d}")),
                     (Some(_), None) => Err("bad-op depth needs the tracing feature (mst_all)".into()),
                     (None, _) => Ok("panic".into()),
                 }
